@@ -30,7 +30,7 @@ if os.path.exists(hc):
     hooks_commits = [l.split()[0] for l in open(hc) if l.strip() and not l.startswith('#')]
 m = {
     'version': 1,
-    'setup_cmd': 'cd harness && CARGO_NET_OFFLINE=true cargo build --offline -q -p qe-driver -p qe-native',
+    'setup_cmd': 'cd harness && CARGO_NET_OFFLINE=true cargo build --offline -q -p qe-driver -p qe-native && cd ../harness-loom && CARGO_NET_OFFLINE=true cargo build --offline -q',
     'hooks': {
         'guard': 'cargo feature `verif` (plus cfg `qe_verif_loom` for src/execution/memory.rs only)',
         'enable': 'the harness crates depend on query_engine with features=["verif"]; every check runs `cargo build --offline` in /verif/harness first, which rebuilds /repo\'s working tree with the feature on',
@@ -39,6 +39,7 @@ m = {
         'add_only': True,
     },
     'engines': [
+        {'name': 'loom', 'path': 'harness-loom', 'serves_properties': ['C33'], 'kind_free_text': 'loom model of the real memory pool source file'},
         {'name': 'native', 'path': 'harness/qe-native + vlib/native.py', 'serves_properties': sorted(k for k, v in registry.CHECKS.items() if v['engine'] == registry.E2),
          'kind_free_text': 'rust-native exhaustive enumerators calling the real functions/objects, one subcommand per property'},
         {'name': 'sqldiff', 'path': 'vlib/sqldiff.py + harness/qe-driver', 'serves_properties': sorted(k for k, v in registry.CHECKS.items() if v['engine'] == registry.E1),
